@@ -909,6 +909,18 @@ func (x *exec) apply(tr trans) {
 	}
 	t.steps++
 	t.answer = ans
+	// channel accesses for the race oracle (before the operation's own synchronisation)
+	switch {
+	case o.kind == opSend, o.kind == opSelect && tr.tCase >= 0 && o.cases[tr.tCase].send:
+		x.chanAccess(t, obj, false, o.pos)
+	case o.kind == opClose:
+		x.chanAccess(t, obj, true, o.pos)
+	}
+	if tr.partner != nil {
+		if po := tr.partner.pend; po.kind == opSend || (po.kind == opSelect && tr.pCase >= 0 && po.cases[tr.pCase].send) {
+			x.chanAccess(tr.partner, obj, false, po.pos)
+		}
+	}
 	if obj != nil {
 		st.Obj = obj.label
 		if tr.partner != nil {
